@@ -6,8 +6,8 @@
 //     loop body;
 //   - go statements become simhook.Go(site, func(){...}) with the function value
 //     and the arguments still evaluated at the go statement;
-//   - sync.Mutex / sync.RWMutex / sync.Pool types become simhook.Mutex /
-//     simhook.RWMutex / simhook.Pool;
+//   - sync.Mutex / sync.RWMutex / sync.Pool / sync.Once types become
+//     simhook.Mutex / simhook.RWMutex / simhook.Pool / simhook.Once;
 //   - select statements with several communication clauses poll their clauses
 //     in an order the simulator chooses (simhook.Select).
 //
@@ -125,7 +125,7 @@ func (in *inst) file(path string) error {
 			if !ok || id.Name != syncName || id.Obj != nil {
 				return true
 			}
-			if se.Sel.Name == "Mutex" || se.Sel.Name == "RWMutex" || se.Sel.Name == "Pool" {
+			if se.Sel.Name == "Mutex" || se.Sel.Name == "RWMutex" || se.Sel.Name == "Pool" || se.Sel.Name == "Once" {
 				id.Name = "simhook"
 				in.nMutex++
 			}
